@@ -42,11 +42,18 @@ template <integral Int, from_integer_options Options = from_integer_options{}>
         return {.end = str + i, .error = from_integer_error::none};
     }
 
+    if (length == 0) {
+        return {.end = nullptr, .error = from_integer_error::overflow};
+    }
+
     bool isNegative = false;
     if constexpr (is_signed_v<Int>) {
         if (num < 0 and base == 10) {
             isNegative = true;
             str[i++]   = '-';
+            if (length <= i) {
+                return {.end = nullptr, .error = from_integer_error::overflow};
+            }
         }
     }
 
